@@ -22,7 +22,7 @@ def stepLine (c : Cache) (line : String) : Cache × List String :=
       | .hit id d => s!"get hit {id} {b01 d} "
       | _ => "get miss "
     (c', [r ++ showState c'])
-  | ["flip", k, d] =>
+  | "flip" :: k :: d :: _ =>   -- an optional fourth word is the LSN handed to markDirty: no part of the cache model
     let (c', _) := step c (.flip (natOr k) (d == "1"))
     (c', ["flip " ++ showState c'])
   | [] => (c, [])
@@ -88,7 +88,7 @@ def judgeLine (j : J) (op : String) (outs : List String) : J × List String :=
       let good := Spec.getSpec j.items (natOr k) none l
       ({ j with items := l }, if good then [] else [viol j op "get-miss"])
     | none => (j, [viol j op "unparsable"])
-  | ["flip", k, d], "flip" :: st =>
+  | "flip" :: k :: d :: _, "flip" :: st =>
     match parseState st with
     | some (l, _) =>
       let good := Spec.flipSpec j.items (natOr k) (d == "1") l
